@@ -79,6 +79,8 @@ type Msg struct {
 	Attrs    []*Attr    `json:"attrs"`
 	Oneofs   []string   `json:"oneofs,omitempty"` // Go holder names, declaration order
 	Empty    bool       `json:"empty,omitempty"`
+	// AllExcluded: the message has fields but the configuration excludes all of them
+	AllExcluded bool `json:"all_excluded,omitempty"`
 	Injected []Injected `json:"injected,omitempty"`
 	Excluded []Excluded `json:"excluded,omitempty"`
 }
